@@ -399,6 +399,7 @@ pzgssvx(int_t nprocs, superlumt_options_t *superlumt_options, SuperMatrix *A,
     SuperMatrix *AA; /* A in NC format used by the factorization routine.*/
     SuperMatrix AC; /* Matrix postmultiplied by Pc */
     int_t       colequ, equil, dofact, notran, rowequ;
+    int_t       conjrhs; /* row-wise A, trans = CONJ: solve conj(M)*X = B */
     char      norm[1];
     trans_t   trant;
     int_t     j, info1;
@@ -523,6 +524,10 @@ pzgssvx(int_t nprocs, superlumt_options_t *superlumt_options, SuperMatrix *A,
 	zCreate_CompCol_Matrix(AA, A->ncol, A->nrow, Astore->nnz, 
 			       Astore->nzval, Astore->colind, Astore->rowptr,
 			       SLU_NC, A->Dtype, A->Mtype);
+	/* With M = A**T held column-wise: A*X = B is M**T*X = B and
+	   A**T*X = B is M*X = B.  A**H*X = B is conj(M)*X = B, i.e.
+	   M*conj(X) = conj(B): B and X are conjugated around the solve. */
+	conjrhs = (superlumt_options->trans == CONJ);
 	if ( notran ) { /* Reverse the transpose argument. */
 	    trant = TRANS;
 	    notran = 0;
@@ -533,6 +538,7 @@ pzgssvx(int_t nprocs, superlumt_options_t *superlumt_options, SuperMatrix *A,
     } else { /* A->Stype == NC */
 	trant = superlumt_options->trans;
 	AA = A;
+	conjrhs = 0;
     }
 
     /* ------------------------------------------------------------
@@ -638,6 +644,10 @@ pzgssvx(int_t nprocs, superlumt_options_t *superlumt_options, SuperMatrix *A,
 	/* ------------------------------------------------------------
 	   Compute the solution matrix X.
 	   ------------------------------------------------------------*/
+	if ( conjrhs )
+	    for (j = 0; j < nrhs; j++)
+		for (i = 0; i < B->nrow; i++)
+		    Bmat[i + j*ldb].i = -Bmat[i + j*ldb].i;
 	for (j = 0; j < nrhs; j++)    /* Save a copy of the right hand sides */
 	    for (i = 0; i < B->nrow; i++)
 		Xmat[i + j*ldx] = Bmat[i + j*ldb];
@@ -674,6 +684,14 @@ pzgssvx(int_t nprocs, superlumt_options_t *superlumt_options, SuperMatrix *A,
 		}
 	}
 	
+	if ( conjrhs ) { /* back to the solution of A**H*X = B; restore B */
+	    for (j = 0; j < nrhs; ++j)
+		for (i = 0; i < A->nrow; ++i) {
+		    Xmat[i + j*ldx].i = -Xmat[i + j*ldx].i;
+		    Bmat[i + j*ldb].i = -Bmat[i + j*ldb].i;
+		}
+	}
+
 	/* Set INFO = A->ncol+1 if the matrix is singular to 
 	   working precision.*/
 	if ( *rcond < dlamch_("E") ) *info = A->ncol + 1;
